@@ -1182,6 +1182,14 @@ class H2Connection:
         if origin is None and stream_id is None:
             raise ValueError("Must provide one of origin and stream_id")
 
+        # Only servers advertise alternative services (RFC 7838 Section 4).
+        # The connection state machine alone does not enforce this: on a
+        # connection that is still idle it takes the call for a server's.
+        if self.config.client_side:
+            raise ProtocolError(
+                "Clients cannot advertise alternative services."
+            )
+
         self.state_machine.process_input(
             ConnectionInputs.SEND_ALTERNATIVE_SERVICE
         )
